@@ -84,13 +84,13 @@ Definition model_transcript (apps : list A) (ins : list minput) : list event :=
   | _ => [EApi ApiNew default_view; EPanic]
   end.
 
-(* admissible inputs: times in range and not decreasing (the harness advances the clock before every poll),
-   received bytes are bytes *)
+(* admissible inputs: times in range and strictly increasing (the harness advances the clock by at least
+   1 us before every poll), received bytes are bytes *)
 Fixpoint ins_ok (tl : Z) (ins : list minput) : Prop :=
   match ins with
   | [] => True
   | InApi _ :: r => ins_ok tl r
-  | InPoll now _ nb :: r => tl <= now /\ time_ok now /\ all_bytes nb /\ ins_ok now r
+  | InPoll now _ nb :: r => tl < now /\ time_ok now /\ all_bytes nb /\ ins_ok now r
   end.
 
 Definition no_passive (ins : list minput) : Prop := Forall (fun i => i <> InApi ApiPassive) ins.
@@ -391,6 +391,8 @@ Definition x_left : nat := (length (s_rx s) - s_consumed s)%nat.
 Definition x_m3 : mon :=
     if x_new_visit
     then mkMon x_post x_left x_lba' x_quiet x_cand x_pass x_gap_polls x_req x_out (m_turn (fst x_fold)) (m_tt m) x_now 0 x_start
+    else if state_kind_eqb x_k1 KOffline
+    then mkMon x_post x_left x_lba' x_quiet x_cand x_pass x_gap_polls x_req x_out (m_turn (fst x_fold)) 0 0 0%nat x_start
     else mkMon x_post x_left x_lba' x_quiet x_cand x_pass x_gap_polls x_req x_out (m_turn (fst x_fold)) (m_prev_tt m) (m_tt m) x_rounds x_start.
 
 Lemma mon_poll_eq :
@@ -722,7 +724,7 @@ Hypothesis J_api : forall a f apps buf tl m g f',
   J f' apps buf tl (fst (mon_after_api a (view_of f') m g)) (snd (mon_after_api a (view_of f') m g)).
 
 Hypothesis J_poll : forall f apps buf tl m g now busy nb f' o apps' calls,
-  J f apps buf tl m g -> tl <= now -> time_ok now -> all_bytes nb ->
+  J f apps buf tl m g -> tl < now -> time_ok now -> all_bytes nb ->
   poll ops f now (mkPhyIn busy (buf ++ nb)) apps = Ok (f', o, apps', calls) -> G f' ->
   onlyp Q (snd (mon_poll p n m (poll_event now busy (buf ++ nb) f' o calls))) /\
   onlyp Q (snd (mon_poll2 p n m g (poll_event now busy (buf ++ nb) f' o calls))) /\
@@ -765,9 +767,9 @@ Proof.
 Qed.
 
 Hypothesis J_init : forall f0 apps, fdl_new p = Ok f0 -> length apps = n -> G f0 ->
-  J f0 apps [] 0 (mon_reset (view_of f0) 0) mon2_reset.
+  J f0 apps [] (-1) (mon_reset (view_of f0) 0) mon2_reset.
 
-Theorem generic_sound_transcript apps ins : length apps = n -> ins_ok 0 ins -> transcript_ok A ops p G apps ins ->
+Theorem generic_sound_transcript apps ins : length apps = n -> ins_ok (-1) ins -> transcript_ok A ops p G apps ins ->
   forall k r, In (k, r) (monitor p n (model_transcript A ops p apps ins)) -> Q (rule_prop r).
 Proof.
   intros Hn Hok Hrun k r Hin. unfold monitor in Hin. destruct (builder_validb p); [|contradiction].
